@@ -169,6 +169,51 @@ pub fn c20(opts: &Opts, out: &mut Out) {
         }
         let _ = RistrettoPoint::default();
     }
+    // owning objects built from caller vectors that have spare capacity (filled by `push`, reused buffers): the
+    // constructor must not give up a block that holds the secrets (for instance by shrinking), and the drop must wipe
+    // whatever block ends up owning them
+    for d in [1usize, 2, 3, 6] {
+        let secrets: Vec<Scalar> = (0..d).map(|_| Scalar::random(&mut rng)).collect();
+        let spare = |extra: usize| -> Vec<Scalar> {
+            let mut v = Vec::with_capacity(d + extra);
+            for s in &secrets {
+                v.push(*s);
+            }
+            v
+        };
+        let key = format!("objects built from vectors with spare capacity, {} blinding factors", d);
+        for extra in [1usize, 5, 64] {
+            alloc::clear();
+            for s in &secrets {
+                alloc::register(s.as_bytes(), 0);
+            }
+            let v = spare(extra);
+            alloc::arm();
+            let mask = ExtendedMask::assign(rrun::deg(d), v);
+            let (hits, freed) = alloc::disarm();
+            report(out, "ExtendedMask::assign", &key, &hits, freed, &mut total_freed);
+            alloc::arm();
+            drop(mask);
+            let (hits, freed) = alloc::disarm();
+            report(out, "drop:mask", &key, &hits, freed, &mut total_freed);
+            let v = spare(extra);
+            alloc::arm();
+            let op = CommitmentOpening::new(77, v);
+            let (hits, freed) = alloc::disarm();
+            report(out, "CommitmentOpening::new", &key, &hits, freed, &mut total_freed);
+            let mut ops = Vec::with_capacity(1 + extra);
+            ops.push(op);
+            alloc::arm();
+            let wit = RangeWitness::init(ops);
+            let (hits, freed) = alloc::disarm();
+            report(out, "RangeWitness::init", &key, &hits, freed, &mut total_freed);
+            alloc::arm();
+            drop(wit);
+            let (hits, freed) = alloc::disarm();
+            report(out, "drop:witness", &key, &hits, freed, &mut total_freed);
+        }
+        classes.insert((d, 0, 50, false));
+    }
     // prover calls that FAIL: whatever the prover copied out of the witness before it gave up must be wiped as well
     {
         use curve25519_dalek::traits::Identity;
